@@ -38,7 +38,7 @@ EXTENDS Integers, Sequences, FiniteSets, TLC, Json
 
 CONSTANTS Names,        \* set of strings: component names
           Stages,       \* set of stage indices, {0} or {0,1}
-          RepChoices,   \* subset of {"none","n1","n2","n3","vg","vs","vc"}
+          RepChoices,   \* subset of {"none","n1","n2","n3","n11","vg","vs","vc"}
           AggChoices,   \* subset of BOOLEAN
           Spellings,    \* subset of {"rel","abs"}
           Paths,        \* subset of {"", "out.txt", "d/f.x"}   ("" = no file path)
@@ -74,6 +74,7 @@ OwnCount(c) == CASE c.rep = "none" -> 0
                  [] c.rep = "n1" -> 1
                  [] c.rep = "n2" -> 2
                  [] c.rep = "n3" -> 3
+                 [] c.rep = "n11" -> 11      \* two-digit suffixes: copies 10 and 11 sort before 2 as strings
                  [] OTHER -> Lookup(VarOf(c.rep), c.stage, c.rep)
 
 ---------------------------------------------------------------------------
